@@ -41,6 +41,7 @@ Cube gCommon(const std::vector<Guard> &gs);
 int gTerm(const Guard &g, const Cube &strip);
 std::string gStr(const Guard &g);
 
+extern std::map<std::string, std::set<int>> g_linesTouched;
 struct SrcLoc { std::string file; int line; std::string func; };
 
 struct Finding { // a standing-obligation failure observed while interpreting a monitored stage
